@@ -181,11 +181,26 @@ def add_evidence(items, edits, history):
     case_has_combo = bool(combo_tables)
     reuse = False
     seen_names = {}
+    # (moved below: table-name reuse also counts)
     for app, mods in history[0].items():
         for m, ms in mods.items():
             seen_names[(app, m)] = set(n for n, _f in ms['fields'])
+    seen_tables = set()
+    for sp in history[:1]:
+        for app, mods in sp.items():
+            for m in mods:
+                seen_tables.update(S.owned_tables(sp, app, m))
     for i, e in enumerate(edits):
         if e['op'] == 'rename_model':
+            old_t = S.model_table(history[i], e['app'], e['old'])
+            if e['db_table'] != old_t and e['db_table'] in seen_tables:
+                # a table name that another model used before: the indexes
+                # of that model still carry names derived from it
+                reuse = True
+            for app2, mods2 in history[i + 1].items():
+                for m2 in mods2:
+                    seen_tables.update(S.owned_tables(history[i + 1], app2,
+                                                      m2))
             seen_names[(e['app'], e['new'])] = seen_names.pop(
                 (e['app'], e['old']), set())
         if e['op'] == 'rename_app':
